@@ -123,6 +123,17 @@ def jobs_for(ctx, props, n_generated, shipped_events, slow_events, gen_events, f
             ev = slow_events if name in scenario.SLOW else shipped_events
             jobs.append({"spec": {"kind": "shipped", "name": name, "end": 1e6}, "props": list(props),
                          "seed": ctx.seed * 1000 + s, "max_events": ev, "label": name})
+    if shipped is None:
+        # heap scheduler with lazy-deletion counters preset just below 2^32: the overflow path (delete_events) runs mid-run
+        for k, (name, ov) in enumerate([
+                ("coulomb_atoms/power_bounded", {"SingleIndependentActivePeriodicDirectionEndOfChainEventHandler": {"chain_time": 0.05}}),
+                ("dipoles/dipole_motion", {"SingleIndependentActivePeriodicDirectionEndOfChainEventHandler": {"chain_time": 0.11}}),
+                ("water/coulomb_power_bounded_lj_inverted", None)]):
+            spec = {"kind": "shipped", "name": name, "end": 1e6, "heap_counter_preset": 40 + 7 * k}
+            if ov:
+                spec["overrides"] = ov
+            jobs.append({"spec": spec, "props": list(props), "seed": ctx.seed * 1000 + 900 + k, "max_events": shipped_events,
+                         "label": name + "(counter preset)"})
     rng = core.rng_for(ctx.prop, ctx.seed, "gen")
     families = families or DEFAULT_FAMILIES
     for i in range(n_generated):
